@@ -369,6 +369,7 @@ async fn conn_task(host: String, mut s: TcpStream) {
         };
         let mut cancelled = false;
         let mut close_after: Option<(usize, bool)> = None;
+        let mut stall_after: Option<usize> = None;
         if let Some(sql) = &sql_for_directives {
             if sess.copy_in.is_none() {
                 if sqlmini::has_directive(sql, "sim_hang") {
@@ -412,6 +413,9 @@ async fn conn_task(host: String, mut s: TcpStream) {
                 }
                 if let Some(k) = sqlmini::directive(sql, "sim_close") {
                     close_after = Some((k as usize, sqlmini::has_directive(sql, "sim_rst")));
+                }
+                if let Some(k) = sqlmini::directive(sql, "sim_stall") {
+                    stall_after = Some(k as usize);
                 }
             }
         }
@@ -462,6 +466,32 @@ async fn conn_task(host: String, mut s: TcpStream) {
                 rfq = om.body.first().cloned();
             }
             bytes.extend(om.bytes());
+        }
+        if let Some(k) = stall_after {
+            // the first k bytes of the reply, then nothing more, ever
+            world::fault("server_stall_mid_reply");
+            let k = k.min(bytes.len());
+            let mut out = std::mem::take(&mut pending_out);
+            out.extend_from_slice(&bytes[..k]);
+            let _ = s.write_all(&out).await;
+            {
+                let mut h = HIST.lock();
+                if let Some(u) = h.backend_conns[conn_idx].units.last_mut() {
+                    u.out_bytes.extend_from_slice(&bytes[..k]);
+                }
+            }
+            let mut buf = [0u8; 4096];
+            loop {
+                tokio::select! {
+                    _ = kill_rx.changed() => { how = "killed"; break 'main; }
+                    r = s.read(&mut buf) => {
+                        match r {
+                            Ok(0) | Err(_) => { how = "eof"; break 'main; }
+                            Ok(_) => {}
+                        }
+                    }
+                }
+            }
         }
         if let Some((k, rst)) = close_after {
             world::fault("server_close_mid_reply");
